@@ -86,7 +86,8 @@ ConvClause(m, ev) ==
      ELSE IF ev.gc # c THEN "get_calendar_date"
      ELSE IF ev.go # o THEN "get_ordinal_date"
      ELSE IF ev.gw # w THEN "get_week_date"
-     ELSE IF Len(ev.sf) > 0 /\ ev.sf # <<c[1], c[2], c[3], o[2]>> THEN "formatted-civil-date-disagrees"
+     ELSE IF Len(ev.sf) > 0 /\ SubSeq(ev.sf, 1, 4) # <<c[1], c[2], c[3], o[2]>> THEN "formatted-civil-date-disagrees"
+     ELSE IF Len(ev.sf) = 6 /\ SubSeq(ev.sf, 5, 6) # <<w[1], w[2]>> THEN "formatted-week-disagrees"
      ELSE "ok"
 
 \* C01 / C05: p + d (how = "add": p + d, "radd": d + p, "sub": p - (-d) i.e. the logged d is the negated operand)
